@@ -50,6 +50,10 @@ pub struct Case {
     /// max_concurrent_connections on every node
     #[serde(default)]
     pub limit: Option<u8>,
+    /// epilogue: this node vanishes without a word (crash: nothing is closed) and a new node with
+    /// another identity takes over its address; nodes that still list the old one dial the address again
+    #[serde(default)]
+    pub takeover: Option<u8>,
     pub faults: Vec<FaultSeg>,
     pub fault_seed: u64,
     pub link_delay_ms: u8,
@@ -226,6 +230,35 @@ pub fn check(case: &Case, obs: &mut Obs) -> Result<(), Fail> {
                 }
             }
         }
+        // --- epilogue: a silent takeover of an address
+        if let Some(k) = case.takeover {
+            let k = (k % n) as usize;
+            let k_id = nodes[k].id();
+            let k_addr = nodes[k].addr();
+            let callers: Vec<usize> = (0..n as usize).filter(|c| *c != k && nodes[*c].net.peers().contains(&k_id)).collect();
+            if !callers.is_empty() {
+                sim.fabric.clear_faults();
+                sim.fabric.detach(k_addr);
+                let mut ws = NodeSpec::new(k as u8);
+                ws.addr = k_addr;
+                ws.key = key_seed(940 + k as u64);
+                let w = sim.node_with(ws)?;
+                for c in callers {
+                    // the caller still lists the vanished node (its idle timeout has not passed); the address now belongs to W
+                    match within(30_000, nodes[c].net.connect(k_addr)).await {
+                        Ok(Ok(p)) => vensure!(p == w.id(), "c03:wrong-identity-returned", "node {c} dialed the address of node {k} after another party ({}) silently took it over: connect returned {p}{}", w.id(), if p == k_id { " - the identity of the node that is gone (answered from state left by the earlier connection)" } else { "" }),
+                        Ok(Err(_)) => {}
+                        Err(()) => vfail!("c03:dial-hang", "re-dial after the takeover did not return"),
+                    }
+                    match within(30_000, nodes[c].net.connect_with_peer_id(k_addr, k_id)).await {
+                        Ok(Ok(p)) => vfail!("c03:mismatched-dial-succeeded", "node {c} dialed the taken-over address naming the node that is gone and got Ok({p}); the key there is {}", w.id()),
+                        Ok(Err(_)) => {}
+                        Err(()) => vfail!("c03:dial-hang", "pinned re-dial after the takeover did not return"),
+                    }
+                }
+                obs.label("epilogue:address-taken-over-silently");
+            }
+        }
         sim.health()?;
         check_no_panics("during dials")?;
         obs.evals(plan.len() as u64);
@@ -251,7 +284,7 @@ impl Part for Dials {
     type Case = Case;
     fn name(&self) -> &'static str { "dials" }
     fn rule(&self) -> &'static str {
-        "2-5 honest networks plus an optional impostor (raw QUIC endpoint answering at its own address with a replayed certificate of node k, with [own, replayed], or honestly); 1-8 dials connect(addr) / connect_with_peer_id(addr, e) with e equal or unequal to the identity at addr, generated start offsets 0-3 s (many equal => concurrent dials of one address with different expectations; late ones => dials made while already connected), 0-2 High-affinity known-peer entries claiming an identity at an address (background dials naming it, right or wrong), optionally max_concurrent_connections 0-2 on every node, loss bursts bounded to the first seconds; oracle: Ok(p) => p == key holder at addr (== e if given) and p was in the caller's connected set (NewPeer seen or listed at return); identity(addr) != e => Err; pairs with only mismatched dials between them never list, announce or serve each other; a replayed identity never shows up; Err always allowed under loss, with a connection limit, or when dials race; self-dials included (the node reached is the dialer itself); non-trivial = a mismatched explicit or background dial, an impostor, or a lost handshake datagram; distinct by case"
+        "2-5 honest networks plus an optional impostor (raw QUIC endpoint answering at its own address with a replayed certificate of node k, with [own, replayed], or honestly); 1-8 dials connect(addr) / connect_with_peer_id(addr, e) with e equal or unequal to the identity at addr, generated start offsets 0-3 s (many equal => concurrent dials of one address with different expectations; late ones => dials made while already connected), 0-2 High-affinity known-peer entries claiming an identity at an address (background dials naming it, right or wrong), optionally max_concurrent_connections 0-2 on every node, loss bursts bounded to the first seconds; optionally an epilogue in which one node vanishes silently, another identity takes over its address and the nodes that still list the old one dial the address again (named and unnamed); oracle: Ok(p) => p == key holder at addr (== e if given) and p was in the caller's connected set (NewPeer seen or listed at return); identity(addr) != e => Err; pairs with only mismatched dials between them never list, announce or serve each other; a replayed identity never shows up; Err always allowed under loss, with a connection limit, or when dials race; self-dials included (the node reached is the dialer itself); non-trivial = a mismatched explicit or background dial, an impostor, or a lost handshake datagram; distinct by case"
     }
     fn strategy(&self, _t: Tier) -> BoxedStrategy<Case> {
         let dial = (0u8..5, 0u8..6, prop::option::weighted(0.7, 0u8..6), prop_oneof![3 => Just(0u16), 2 => 0u16..10, 2 => 10u16..400, 1 => 400u16..3000])
@@ -261,8 +294,8 @@ impl Part for Dials {
         let known = (0u8..5, 0u8..6, 0u8..6).prop_map(|(from, addr, claimed)| Known { from, addr, claimed });
         let known = prop_oneof![3 => Just(Vec::new()), 2 => prop::collection::vec(known, 1..3)];
         let limit = prop_oneof![4 => Just(None), 1 => (0u8..3).prop_map(Some)];
-        (2u8..6, imp, prop::collection::vec(dial, 1..9), prop::collection::vec(fault, 0..2), any::<u64>(), 1u8..25, known, limit)
-            .prop_map(|(nodes, impostor, dials, faults, fault_seed, link_delay_ms, known, limit)| Case { nodes, impostor, dials, known, limit, faults, fault_seed, link_delay_ms })
+        (2u8..6, imp, prop::collection::vec(dial, 1..9), prop::collection::vec(fault, 0..2), any::<u64>(), 1u8..25, known, limit, prop::option::weighted(0.3, 0u8..5))
+            .prop_map(|(nodes, impostor, dials, faults, fault_seed, link_delay_ms, known, limit, takeover)| Case { nodes, impostor, dials, known, limit, takeover, faults, fault_seed, link_delay_ms })
             .boxed()
     }
     fn run(&self, c: &Case, obs: &mut Obs) -> Result<(), Fail> { check(c, obs) }
